@@ -148,7 +148,11 @@ Judge(i, si) ==
       single == q0.res \in {"account1", "tx1"}
       amh == R.flags.amh
       tmh == R.flags.tmh
-      selClass ==
+      \* filtered aggregated balances come with the same read WITHOUT the filter: is that fold the prescribed one?
+      baseOK == IF b = "agg" /\ ~tpl /\ q0.filter.op # "true" /\ out.baseOK
+                THEN {Norm("agg", x) : x \in ToSet(out.base)} = AggList(R, [q EXCEPT !.filter = [op |-> "true"]])
+                ELSE TRUE
+      selClass0 ==
         IF out.status = "inexact" THEN "inexact"
         ELSE IF rejected THEN "none"
         ELSE IF tpl /\ R.big /\ (\E v \in DOMAIN q0.tpl.vars : q0.tpl.vars[v].t = "amount") THEN "tplbignum"
@@ -160,6 +164,8 @@ Judge(i, si) ==
         ELSE IF b = "accounts" /\ q.pit # 0 /\ UsesField(q.filter, "balance") /\ R.flags.moves /\ ~R.flags.eff THEN "acctbalnoeff"
         ELSE IF b = "accounts" /\ UsesPlainBalance(q.filter) THEN "acctbalnoasset"
         ELSE "none"
+      \* an aggregate whose UNFILTERED fold is already wrong is not a matter of its filter class: general predicates
+      selClass == IF b = "agg" /\ selClass0 \in {"acctdel", "lateralin"} /\ ~baseOK THEN "none" ELSE selClass0
       metaClass ==
         IF out.status = "inexact" THEN "inexact"
         ELSE IF rejected THEN "none"
@@ -239,15 +245,17 @@ ReadChecks(i, si) ==
         \*  C01 conservation per asset at any instant / window, in both date modes
         <<"Inv_C01_ConservationAt", at /\ ~j.filtered /\ j.base \in {"agg", "volumes"}, j.conserv>>,
         \*  C03 the volumes as of t by insertion date are the running volumes after the last move inserted at or before t
-        <<"Inv_C03_MovesAt", at /\ j.pit # 0 /\ ((j.base = "accounts" /\ j.xvol) \/ (j.base = "agg" /\ j.ins /\ ~j.filtered)),
+        \*  (aggregated balances with a filter = the selection over the same fold: judged here as well)
+        <<"Inv_C03_MovesAt", at /\ j.pit # 0 /\ ((j.base = "accounts" /\ j.xvol) \/ (j.base = "agg" /\ j.ins)),
                              IF j.base = "agg" THEN j.content ELSE j.volOK>>,
         \*  C04 the effective-date counterparts (back-dated inserts are honoured by every read as of t)
-        <<"Inv_C04_EffectiveAt", at /\ j.pit # 0 /\ ((j.base = "accounts" /\ j.xevol)
-                                                     \/ (j.base \in {"agg", "volumes"} /\ ~j.ins /\ ~j.filtered)),
+        <<"Inv_C04_EffectiveAt", at /\ j.pit # 0 /\ ((j.base = "accounts" /\ j.xevol) \/ (j.base = "agg" /\ ~j.ins)
+                                                     \/ (j.base = "volumes" /\ ~j.ins /\ ~j.filtered)),
                                  IF j.base = "accounts" THEN j.evolOK ELSE j.content>>,
         <<"Inv_C05_Status", direct /\ none /\ ~j.filtered, j.status>>,
         <<"Inv_C05_VolumesAt", direct /\ none /\ ~j.filtered /\ j.base = "volumes", j.content>>,
-        <<"Inv_C05_AggAt", direct /\ none /\ ~j.filtered /\ j.base = "agg", j.content>>,
+        \* aggregated balances: with a filter too (AggAt with a filter = the selection over the fold; also Step_C20_Select)
+        <<"Inv_C05_AggAt", direct /\ none /\ j.base = "agg", j.content>>,
         <<"Inv_C05_AccountsAt", direct /\ none /\ ~j.filtered /\ j.base = "accounts", j.content>>,
         <<"Inv_C05_TxsAt", direct /\ none /\ ~j.filtered /\ j.base = "transactions", j.content>>,
         <<"Step_C20_Status", direct /\ none /\ j.filtered, j.status>>,
